@@ -573,6 +573,9 @@ def run_property(pid, instances, tier, seed, meta):
     vacuous = []
     exhaustive = True
     for inst, r in zip(instances, results):
+        if os.environ.get("VERIF_VERBOSE") and "crashed" not in r:
+            print(f"  - {r['name']}: paths={r['paths']} obl={r['obligations']}/{r['discharged']} q={r['queries']} "
+                  f"solver_s={r['solver_s']} wall={r['wall_s']} exh={r['exhaustive']} inconc={r['inconclusive'][:2]} out={r['outcomes']}")
         if "crashed" in r:
             crashed.append((r["name"], r["crashed"]))
             continue
